@@ -379,6 +379,8 @@ impl<'c, Param, Yield, Return> Coroutine<'c, Param, Yield, Return> {
 
 impl<Param, Yield, Return> Drop for Coroutine<'_, Param, Yield, Return> {
     fn drop(&mut self) {
+        #[cfg(feature = "verif")]
+        crate::verif::emit("co_drop", self.id, 0, &self.name);
         //for test_yield case
         if self.inner.started() && !self.inner.done() {
             unsafe { self.inner.force_reset() };
@@ -432,6 +434,8 @@ where
         let mut hasher = DefaultHasher::new();
         name.hash(&mut hasher);
         let id = hasher.finish();
+        #[cfg(feature = "verif")]
+        crate::verif::emit("co_new", id, 0, &name);
         #[allow(unused_mut)]
         let mut co = Coroutine {
             id,
